@@ -724,6 +724,8 @@ class Check(PropertyCheck):
     id = 'C02'
     props_module = 'Props.C02'
     models = {'registry': 'XRegistry.v', 'implements': 'XImplements.v'}
+    needs_gen = True
+    gen_modules = ['gen_c02_code']
     rule = ('(i) exhaustive: quick = every sequence of <= 3 operations {AddModule(pkg?, name, parent), AddChild(Class|Function|'
             'Attribute, name, parent), Reparent(o, newparent, newname)} over 3 names with ANY object as parent, and every '
             'sequence of <= 4 operations with Class/Function children and parents ranging over the objects that can hold the '
@@ -739,6 +741,10 @@ class Check(PropertyCheck):
         'no axioms (Print Assumptions: Closed under the global context for every theorem)',
         'extraction: ExtrOcamlBasic only; OCaml 4.13.1; coq/ocaml/driver.ml',
         'correspondence harness harness/c02.py + harness/impl/c02_ops.py, c02_project.py, c02_common.py',
+        'translator harness/gen/gen_c02_code.py (bodies of System.addObject / handleDuplicate / _remove, Documentable.reparent / '
+        '_handle_reparenting_pre / _post -> Gen/RegistryCode.v, fail-closed) and the interpreter Model/RegistryIR.v; primitive '
+        '(assumed, not translated): Python dict/list operations on allobjects / contents / rootobjects, fullName(), '
+        "`s + ' ' + str(i)`, isinstance against Module / CanContainImportsDocumentable, report() touches nothing",
         'names are structured (base, duplicate indices); the rendering base ++ " i" ... and "."-joined paths are injective '
         'only for bases without blank and dot (Python identifiers); quote() is injective',
         'modelled not verified: that astbuilder issues only guarded registry operations (validated on generated projects '
@@ -759,7 +765,10 @@ class Check(PropertyCheck):
                  '(C02_mro_shape, corollary of C05); implementedby is the exact inverse of implements (C02_implements_inverse); '
                  'page file names are injective and disjoint from the summary pages except for the recorded names '
                  '(C02_url_injective_partial). _refuted witnesses (vm_compute), also as single breaking steps from an Inv state, for '
-                 'the recorded defects. Tie: exhaustive + random operation histories through the real API vs the extracted '
+                 'the recorded defects. Tie to the source, two ways: (a) harness/gen/gen_c02_code.py translates the bodies of '
+                 'addObject / handleDuplicate / _remove / reparent / _handle_reparenting_pre/_post into Gen/RegistryCode.v on every '
+                 'run and C02_code_*_is_model prove that interpreting THAT code is the model, for all states and arguments; '
+                 '(b) exhaustive + random operation histories through the real API vs the extracted '
                  'model, state for state, incl. the MRO of every class and the zope back-references; inv_check cross-validated '
                  'against the Python oracle; generated source projects through the real builder checked by the oracle.'),
         'note': ('Trusted: Coq kernel, ExtrOcamlBasic extraction + OCaml driver, the Python harness, injectivity of the name '
